@@ -32,6 +32,11 @@ SHADOWS = {
     "kuz-neon": dict(crate="kuznyechik", subs=A64_SUBS, must={"src/lib.rs": 3, "src/neon/backends.rs": 1},
                      rustflags=[], neon=True),
 }
+# zeroize variants (C16): same sources, `zeroize` feature on
+for _sid in ("aes-fix32", "aes-armv8", "kuz-neon"):
+    _d = dict(SHADOWS[_sid])
+    _d["features"] = ["zeroize", "hazmat", "bcrypt"]
+    SHADOWS[_sid + "-z"] = _d
 FEATURES = ["hazmat", "bcrypt"]
 _built = {}
 
@@ -104,7 +109,7 @@ def build_shadow(sid):
         tdir = os.path.join(root, "target")
         flags = list(s["rustflags"]) + ["--check-cfg", "cfg(block_ciphers_verif)", "-Awarnings"]
         env = {"CARGO_ENCODED_RUSTFLAGS": "\x1f".join(flags), "CARGO_NET_OFFLINE": "true"}
-        p = run(["cargo", "build", "--offline", "-q", "-p", "drv", "--target-dir", tdir, "--features", ",".join(FEATURES)],
+        p = run(["cargo", "build", "--offline", "-q", "-p", "drv", "--target-dir", tdir, "--features", ",".join(s.get("features", FEATURES))],
                 cwd=ws, env=env, timeout=1800, check=False)
     finally:
         fcntl.flock(lock, fcntl.LOCK_UN)
